@@ -31,7 +31,7 @@ CONFIG = {
 
 def run(ctx):
     n = ctx.pick(96, 900)
-    budget = ctx.pick(75, 900)
+    budget = ctx.pick(75, 420)
     for ci in ctx.my_share(n):
         if ctx.elapsed() > budget:
             ctx.note(f"time budget reached at case {ci}")
